@@ -13,7 +13,7 @@ EXTENDS Integers, Sequences, FiniteSets, TLC
 
 CONSTANTS Tok, MaxOps, Fix
 
-VARIABLES cfg,        \* [dict : BOOLEAN, limit : 0 (none) | n tokens, presized : BOOLEAN]
+VARIABLES cfg,        \* [dict : BOOLEAN, limit : 0 (none) | n tokens]
           switched,   \* hasSwitchedToPlain
           alloc,      \* len(c.filter) > 0
           fvals,      \* tokens inserted in the filter
@@ -24,9 +24,9 @@ VARIABLES cfg,        \* [dict : BOOLEAN, limit : 0 (none) | n tokens, presized 
 vars == <<cfg, switched, alloc, fvals, dvals, pages, committed, hist>>
 view == <<cfg, switched, alloc, fvals, dvals, pages, committed>>
 
-Cfgs == [dict : BOOLEAN, limit : {0, 1}, presized : BOOLEAN]
+Cfgs == [dict : BOOLEAN, limit : {0, 1}]
 
-Init == /\ cfg \in Cfgs /\ switched = FALSE /\ alloc = cfg.presized /\ fvals = {} /\ dvals = {}
+Init == /\ cfg \in Cfgs /\ switched = FALSE /\ alloc = FALSE /\ fvals = {} /\ dvals = {}
         /\ pages = <<>> /\ committed = <<>> /\ hist = <<>>
 
 Written == UNION {pages[i].vals : i \in 1..Len(pages)}
@@ -51,15 +51,27 @@ FilterAtFlush ==                                    \* flushFilterPages
   ELSE IF alloc THEN fvals
   ELSE Written
 
+Commit == Append(committed, [written |-> Written, filter |-> FilterAtFlush])
+
 FlushRowGroup ==
   /\ Len(hist) < MaxOps /\ pages # <<>>
-  /\ committed' = Append(committed, [written |-> Written, filter |-> FilterAtFlush])
+  /\ committed' = Commit
   \* ColumnWriter.reset: filter truncated to length 0, dictionary reset, back to the dictionary buffer
   /\ pages' = <<>> /\ fvals' = {} /\ dvals' = {} /\ switched' = FALSE /\ alloc' = FALSE
   /\ UNCHANGED cfg
   /\ hist' = Append(hist, [op |-> "flush"])
 
-Next == FlushRowGroup \/ \E S \in SUBSET Tok : WritePage(S)
+\* Writer.WriteRowGroup (writer.go:549): the pending row group is flushed FIRST, then the filters are
+\* pre-sized for the incoming row group (configureBloomFilters :888), whose pages follow
+BeginWriteRowGroup ==
+  /\ Len(hist) < MaxOps
+  /\ committed' = (IF pages # <<>> THEN Commit ELSE committed)
+  /\ pages' = <<>> /\ fvals' = {} /\ dvals' = {} /\ switched' = FALSE
+  /\ alloc' = TRUE
+  /\ UNCHANGED cfg
+  /\ hist' = Append(hist, [op |-> "wrg"])
+
+Next == FlushRowGroup \/ BeginWriteRowGroup \/ \E S \in SUBSET Tok : WritePage(S)
 Spec == Init /\ [][Next]_vars
 
 \* requirement (C07): every value written to a row group is in that row group's filter
